@@ -45,7 +45,7 @@ func (m *Machine) choice(n int, tag string) int {
 	v := m.newVar(smtName(name), sym.BV64, "choice")
 	c := m.ctx()
 	m.assume(lowerBool(c.Bin(sym.OpULt, v, c.Const(sym.BV64, uint64(n)))))
-	return int(m.concretize(v))
+	return m.freshChoice(v, n)
 }
 
 // mapRangeStart picks the rotation offset for a `range` over om.
@@ -90,7 +90,7 @@ func init() {
 		v := m.newVar(smtName(argStr(a[0])), sym.BV64, "int")
 		c := m.ctx()
 		m.assume(lowerBool(c.Bin(sym.OpULt, v, c.Const(sym.BV64, uint64(n)))))
-		return int(m.concretize(v))
+		return m.freshChoice(v, int(n))
 	}
 	z["zzInt64"] = func(fr *frame, a []value) value { return fr.m.newVar(smtName(argStr(a[0])), sym.BV64, "int64") }
 	z["zzUint64"] = func(fr *frame, a []value) value { return fr.m.newVar(smtName(argStr(a[0])), sym.BV64, "uint64") }
